@@ -1119,6 +1119,10 @@ class Envelope:
         if self.state is None:
             return self.fock.resize(new_dimensions)
 
+        # Tracing out (used when shrinking) moves the fock space to the first
+        # position, it has to be there before the state is reshaped
+        self.reorder(self.fock)
+
         reshape_shape = [-1, -1]
         assert isinstance(self.fock.dimensions, int)
         assert isinstance(self.fock.index, int)
